@@ -4,7 +4,7 @@
    [comp_eq veq a b] is Component.__eq__ as written over a value-equality oracle [veq] (every
    value class has its own __eq__). *)
 Require Import Lib.Base Gen.Gen_parser Gen.Gen_cal Model.Params Model.Contentline Model.Tree Model.TreeOps.
-Require Import Proofs.WalkEqProofs.
+Require Import Proofs.WalkEqProofs Proofs.NameCaseProofs.
 From Coq Require Import Permutation.
 
 Theorem C20_walk_preorder : forall t, walk None t = preorder t.
@@ -51,6 +51,15 @@ Print Assumptions C20_eq_sensitive.
 (* known findings: the component kind is ignored; the subcomponent test is one-directional *)
 Theorem C20_eq_kind_refuted : comp_eq veq_text (Comp (s2l "VEVENT") [] [] []) (Comp (s2l "VTODO") [] [] []) = true.
 Proof. exact eq_kind_refuted. Qed.
+(* finding C20-F8: a name the caller spelled in lower or mixed case is written as spelled and read back in upper
+   case: the serialise-and-parse copy is equal both ways (names are not compared, C20-F3) but serialises to other text *)
+Theorem C20_reparse_name_case_refuted :
+  exists t text t' text',
+    ser true t = Ok text /\ parse dec_basic [] false text = Ok [t'] /\
+    comp_eq veq_text t t' = true /\ comp_eq veq_text t' t = true /\
+    ser true t' = Ok text' /\ text' <> text.
+Proof. exact name_case_refuted. Qed.
+Print Assumptions C20_reparse_name_case_refuted.
 Theorem C20_eq_asym_refuted : exists a b, comp_eq veq_text a b = true /\ comp_eq veq_text b a = false.
 Proof. exact eq_asym_refuted. Qed.
 
